@@ -2,7 +2,8 @@
 Spec: MVN.tla (__getitem__ as an exact function on labelled tensors, + PyIndex.tla, MVNShapes.tla) and MVNOps.tla (shape
 algebra of log_prob, arithmetic / expand / unsqueeze / add_jitter as maps on (mean, covariance)).
 Replay: (a) every enumerated index expression on real distributions whose covariance has unique integer entries, for every
-covariance representation, exact label decoding; (b) the numeric part lives in c10_numeric.py."""
+covariance representation, exact label decoding, and log_prob of the result at the end of every chain (density_check: both paths,
+fresh and after the indexed distribution's Cholesky factor was needed); (b) the numeric part lives in c10_numeric.py."""
 import os
 
 from harness import core, tlc
@@ -250,9 +251,60 @@ def replay_chain(torch, n, mb, cb, lazy, rep, chain):
             # continue the chain on the result: its own variables are now the reference
             cur = r
             ids, mlab, clab = oid, oml, ocl
+        elif len(shape) >= 1:
+            # the end of the chain: the selected variables are a Gaussian vector with the labelled mean and covariance, so the
+            # result's log_prob is that Gaussian's log density - on both paths, and whether or not the distribution that was
+            # indexed had its Cholesky factor computed before (mean / covariance do not show a factor that is carried along)
+            bad = density_check(torch, d_fresh=lambda: build_index_dist(torch, n, mb, cb, lazy, rep)[0], chain=chain, r=r, want_m=want_m, want=want,
+                                warm=(rep != "dense"))      # a dense distribution always has its factor: no history to tell apart
+            if bad:
+                res.update(ok=False, sig=cell + "/then-log_prob-" + bad[0], detail="%s: %s" % (desc, bad[1]))
     if not res["ok"]:
         res["case"] = dict(kind="index", n=n, mb=list(mb), cb=list(cb), lazy=lazy, rep=rep, chain=chain)
     return res
+
+
+def density_check(torch, d_fresh, chain, r, want_m, want, warm=True):
+    """log_prob of the result r of an index chain against the Gaussian log density with the expected (labelled) mean and
+    covariance; then the same chain on a distribution whose Cholesky factor was needed before.  Returns None or (cell, detail).
+    Only for well-conditioned expected covariances (a repeated variable makes the marginal singular: no density)."""
+    import gpytorch
+    from checks import c10_numeric
+    ev = torch.linalg.eigvalsh(want)
+    if float(ev.min()) <= 0 or float((ev.max(-1).values / ev.min(-1).values).max()) > 1e4:
+        return None
+    gen = torch.Generator().manual_seed(4242)
+    L = torch.linalg.cholesky(want)
+    Y = want_m + (L @ (1.2 * torch.randn(*want_m.shape, 1, generator=gen, dtype=torch.float64))).squeeze(-1)
+    ref = c10_numeric.ref_logpdf(torch, Y, want_m, want)
+
+    def both(dist, hist):
+        for fast in ((True, False) if not hist else (False,)):       # (a cached factor is only read on the Cholesky path)
+            with gpytorch.settings.fast_computations(log_prob=fast):
+                ok, lp = core.guarded(lambda: dist.log_prob(Y))
+            path = "fast" if fast else "cholesky"
+            if not ok:
+                return (path + hist + "/raises", "log_prob of the result raised %s (fast_computations.log_prob=%s)" % (lp, fast))
+            good, why = core.close(lp, ref, 1e-7, 1e-9)
+            if not good:
+                return (path + hist, "log_prob of the result%s = %s, Gaussian log density of the selected components = %s: %s" % (
+                    " (indexed after a Cholesky-path log_prob of the whole)" if hist else "", lp.reshape(-1)[:3].tolist(), ref.reshape(-1)[:3].tolist(), why))
+        return None
+    bad = both(r, "")
+    if bad or not warm:
+        return bad
+    # history: the factor of the indexed distribution exists already
+    d = d_fresh()
+    with gpytorch.settings.fast_computations(log_prob=False):
+        ok, _ = core.guarded(lambda: d.log_prob(d.mean + 1.0))
+    if not ok:
+        return None         # (the labelled covariance of the whole need not be well conditioned: no history then)
+    cur = d
+    for step in chain:
+        ok, cur = core.guarded(lambda: cur[py_index(torch, step["idx"])])
+        if not ok:
+            return ("cholesky/warm/raises", "the chain raised %s after a Cholesky-path log_prob of the whole, and did not before" % cur)
+    return both(cur, "/warm")
 
 
 def _parse_worker(path):
@@ -309,7 +361,12 @@ def run(ck):
                "step None/1/2/3, one ellipsis in any position, 1-d index tensors incl. negative entries, batch items, over-long indices) on every (event size, "
                "batch shape, covariance representation), plus chains d[i][j]; non-trivial = valid index selecting a proper non-empty subset. numeric cases = "
                "every (value batch, mean batch, covariance batch) broadcast pattern of rank <= 2 over dims {1,2} x representation x fast_computations.log_prob, "
-               "and every (operation, parameter) of MVNOps.tla; non-trivial = some batch shape involved is non-empty. distinct = distinct abstract case")
+               "and every (operation, parameter, history) of MVNOps.tla: scalar operations (X + k, k + X, X * k, X / k, k * X, add_jitter) over the value alphabet "
+               "{identity, its negative, 0, 0-adjacent, (+-1)-adjacent, proper fractions, ordinary values of both signs} x spelling {int, float, bool, numpy.float64, "
+               "0-dim tensor, omitted default}, expand (incl. to the same shape), unsqueeze, sums of MVNs, each on a fresh operand and (lazy) on one whose Cholesky "
+               "factor was needed before; every result is compared on mean AND covariance AND log_prob on both paths (values drawn around the expected "
+               "distribution); the result at the end of every index chain additionally on log_prob (both paths, fresh and after a Cholesky-path log_prob of "
+               "the whole); non-trivial = some batch shape involved is non-empty. distinct = distinct abstract case")
     ck.assumptions = [
         "index tensors are 1-d LongTensors in adjacent positions, at most one ellipsis, positive steps (the forms whose meaning numpy and torch share, PyIndex.tla)",
         "index tensors in batch positions have pairwise distinct entries (a repeated batch element is 'the same variable twice' for the labels but 'an independent "
@@ -318,7 +375,10 @@ def run(ck):
         "covariance between its components is 0",
         "for an empty selection (a zero-size dimension) only shapes are compared (densifying an empty DiagLinearOperator slice divides by zero inside linear_operator)",
         "the mean / covariance of a distribution are compared after expansion to batch_shape + event_shape (a LinearOperator-constructed distribution stores them unexpanded)",
-        "variances are >= 0.5, so settings.min_variance never clamps",
+        "variances of the constructed distributions are >= 0.05, so settings.min_variance never clamps; the variance of a product with a 0-adjacent scalar "
+        "(below 1e-4) is not compared (mean, covariance and log_prob are)",
+        "a 0-dim tensor as scalar, number * X (no __rmul__) and 0 * X (degenerate) may be rejected: such a case must raise or be right; X / 0 is outside the domain",
+        "log_prob of an index result is compared only when the expected marginal covariance has condition number <= 1e4 (a repeated component makes it singular)",
         "'sample moments converge to mean and covariance' is statistical and is not checked; rsample is checked through base_samples only",
     ]
     ck.exhaustive = True
@@ -349,7 +409,9 @@ def run(ck):
     meta.append(("predicted_fixed", None))
     from checks import c10_numeric
     njobs, nmeta = c10_numeric.tlc_jobs(wd, thorough)
-    results = tlc.run_many(jobs + njobs, parallel=8)
+    # (the MVNOps runs go first: they are short, and their replay can only start when everything is back)
+    results = tlc.run_many(njobs + jobs, parallel=min(8, core.NPROC))
+    results = results[len(njobs):] + results[:len(njobs)]
     dumps, tlc_pred = [], {}
     for (name, cs), res in zip(meta, results[:len(jobs)]):
         ck.add_tlc(res, name)
